@@ -153,3 +153,21 @@ Example C06_ex :
   c_skip 40 c [1; 254; 255; 255; 255; 255; 255; 255; 255; 255; 1] = Err /\      (* sized block with size MaxInt64 *)
   c_skip 40 c [2; 2; 65; 0; 2; 1; 2; 3; 4; 9] = Done tt [9].
 Proof. cbv zeta. split; [cbn; repeat split; lia|]. repeat split; vm_compute; reflexivity. Qed.
+
+(* ---- compressed blocks: what the snappy codec hands on is bounded by what is stored ----
+   (file.go refuses a block whose declared decoded length exceeds 32 times its stored length
+   BEFORE decoding it; the premise says that golang/snappy's DecodedLen is the length of what
+   its Decode returns).  A block of n stored bytes therefore never makes the reader hold more
+   than 32 n bytes of payload, whatever the bytes are. *)
+Require Import Avro.Model.Compress Avro.Proofs.CompressP.
+Theorem C06_snappy_payload_bounded : forall raw_dec raw_len,
+  (forall b u, raw_dec b = Some u -> raw_len b = Some (len u)) ->
+  forall c u, snappy_decompress raw_dec raw_len c = Some u -> len u <= 32 * len c.
+Proof. exact snappy_output_bounded. Qed.
+Print Assumptions C06_snappy_payload_bounded.
+
+(* and a declared length beyond that is refused whatever the raw decoder would do with it *)
+Theorem C06_snappy_impossible_length_refused : forall raw_dec raw_len c n,
+  raw_len (snappy_body c) = Some n -> 32 * len c < n -> snappy_decompress raw_dec raw_len c = None.
+Proof. exact snappy_impossible_length. Qed.
+Print Assumptions C06_snappy_impossible_length_refused.
